@@ -206,11 +206,15 @@ theorem C11_gen_wrapper_transportable :
 open Pyro.Gen.C11 in
 /-- server.py batch loop: gate (the same `_get_attribute` as the single call) outside the `try`, the call
     inside it, `except Exception` appends a wrapper and breaks, `else` appends the result; oneway returns
-    before the reply is built. -/
+    before the reply is built.  `sameSerializeOrFallback`: the failed batch member and the failed plain call
+    both hand the raised exception to the one function `Daemon._serializeException` (the exception itself, or
+    the describing PyroError when the instance cannot be serialised) — that is why `Obj.apply`'s `exc e` may be
+    read as "the exception as sent": the same pure function of the raised exception on both paths. -/
 theorem C11_gen_server_shape :
     batchLoopShape = ["gate:_get_attribute", "try[", "call", "]", "except:Exception[", "hook", "format-traceback",
                       "serialize-or-fallback", "append:wrapper", "break", "]", "else[", "append:result", "]"] ∧
-    singleCallGate = "_get_attribute" ∧ onewayReturnsBeforeReply = true ∧ batchedFlagAfterLoop = true := by decide
+    singleCallGate = "_get_attribute" ∧ onewayReturnsBeforeReply = true ∧ batchedFlagAfterLoop = true ∧
+    sameSerializeOrFallback = true := by decide
 
 open Pyro.Gen.C11 in
 /-- client.py: results generator (wrapper → raiseIt, else yield), raiseIt raises the wrapped exception,
